@@ -6,6 +6,7 @@ import (
 	"time"
 
 	v1 "k8s.io/api/core/v1"
+	"k8s.io/apimachinery/pkg/api/resource"
 
 	"verif/h"
 	"verif/sim"
@@ -28,6 +29,7 @@ type c06Case struct {
 	Starve   string // "" | big | small
 	MaxAge   string // "" | old | young
 	AtMax    bool   // max_nodes equals the total node count (untainted + tainted)
+	Shape    string // "" | init2: the load pod also carries two init containers, each one unit smaller than its container
 }
 
 const c06NodeMem = int64(4_000_000_000)
@@ -85,18 +87,41 @@ func c06Build(p c06Case) *h.Scenario {
 				mem = 0
 			}
 			pod := hh.W.AddPod(sim.PodOpt{Node: first, CPUMilli: cpu, MemBytes: mem, Selector: sel(g)})
-			_ = pod
+			if p.Shape == "init2" {
+				// request = max(sum of containers, largest init container): the two init containers change nothing
+				ic := v1.Container{Name: "i", Resources: v1.ResourceRequirements{Requests: v1.ResourceList{
+					v1.ResourceCPU:    *resource.NewMilliQuantity(max64(cpu-1, 0), resource.DecimalSI),
+					v1.ResourceMemory: *resource.NewQuantity(max64(mem-1, 0), resource.BinarySI),
+				}}}
+				pod.Spec.InitContainers = []v1.Container{ic, ic}
+			}
 			switch p.Starve {
 			case "big":
 				hh.W.AddPod(sim.PodOpt{CPUMilli: 2000, MemBytes: 1, Selector: sel(g), Phase: v1.PodPending})
 			case "just-too-big":
 				// fits on no node (1100m > 1000m) but small enough to leave a large group in a taint band
 				hh.W.AddPod(sim.PodOpt{CPUMilli: 1100, MemBytes: 1, Selector: sel(g), Phase: v1.PodPending})
+			case "mem-only-partial":
+				// every untainted node runs a pod using 40 % of its memory; the pending pod needs 70 % of a
+				// node's memory and next to no CPU: it fits an empty node but none of these
+				for _, n := range hh.W.Nodes {
+					if _, t := h.HasTaint(n, h.TaintKey); !t {
+						hh.W.AddPod(sim.PodOpt{Node: n.Name, CPUMilli: 100, MemBytes: c06NodeMem * 40 / 100, Selector: sel(g)})
+					}
+				}
+				hh.W.AddPod(sim.PodOpt{CPUMilli: 100, MemBytes: c06NodeMem * 70 / 100, Selector: sel(g), Phase: v1.PodPending})
 			case "small":
 				hh.W.AddPod(sim.PodOpt{CPUMilli: 1, MemBytes: 1, Selector: sel(g), Phase: v1.PodPending})
 			}
 		},
 	}
+}
+
+func max64(a, b int64) int64 {
+	if a > b {
+		return a
+	}
+	return b
 }
 
 func c06Monitors() []h.Monitor { return []h.Monitor{NewDecisions()} }
@@ -165,6 +190,23 @@ func c06Grid(t *testing.T, tier string, shard, shards int, c *h.Collector) {
 			}
 		}
 	}
+	// a pod starved by memory only on partly filled nodes (54 % with five nodes: thresholds 40/60/70 put
+	// it in the slow band, 50/65/70 below every band)
+	for _, u := range []int{3, 5} {
+		for _, th := range [][3]int{{40, 60, 70}, {10, 40, 70}, {55, 65, 70}} {
+			for tn := 0; tn <= 1; tn++ {
+				run(c06Case{U: u, T: tn, Min: 0, Lo: th[0], Up: th[1], Su: th[2], Slow: 1, Fast: 2, Ref: "lo", Num: 0, Den: 1, Driver: "cpu", Starve: "mem-only-partial"})
+			}
+		}
+	}
+	// pods whose init containers must not add up
+	for _, u := range []int{2, 4} {
+		for _, drv := range []string{"cpu", "mem"} {
+			for _, pt := range c06Points {
+				run(c06Case{U: u, T: 0, Min: 0, Lo: 10, Up: 40, Su: 70, Slow: 1, Fast: 2, Ref: pt.ref, Num: pt.num, Den: pt.den, Eps: pt.eps, Driver: drv, Shape: "init2"})
+			}
+		}
+	}
 	// documented triggers
 	for u := 1; u <= 3; u++ {
 		for tn := 0; tn <= 1; tn++ {
@@ -204,7 +246,9 @@ func c06HistScenarios(tier string) []*h.Scenario {
 				}
 				hh.W.AddNode(a, sim.NodeOpt{Age: 30 * Q, TaintAge: dp(5 * Q)})
 			},
-			Events: func(hh *h.Hist, slot int) []h.Event { return []h.Event{evBurst(g, 1, 1200), evClearPending(g), evRestart()} },
+			Events: func(hh *h.Hist, slot int) []h.Event {
+				return []h.Event{evBurst(g, 1, 1200), evClearPending(g), evRestart()}
+			},
 		}
 		out = append(out, s)
 	}
@@ -276,7 +320,7 @@ func init() {
 			}
 			return out
 		},
-		Monitors:   c06Monitors,
+		Monitors: c06Monitors,
 		Bound: func(tier string) int {
 			if tier == "thorough" {
 				return 3
